@@ -50,6 +50,18 @@ Theorem C03_no_assertion_fails : forall c fuel main orc,
 Proof. exact no_assertion_fails_on_every_layout. Qed.
 Print Assumptions C03_no_assertion_fails.
 
+(* Handler-side sends are flushed to the capacity as well (the repair D13: before it a handler's replies accumulated without
+   bound in one buffer and left as a single physical send, which can exceed the peer's posted receive): whatever context
+   comm::async / async_bcast runs in, at most the capacity is left unsent when it returns. *)
+Theorem C03_async_flushes_to_capacity_in_every_context : forall c fuel m s s',
+  run fuel c (PAsync m) s = Ok s' -> (sbb s' <= c_cap c)%Z.
+Proof. exact async_unsent_le_cap_any_context. Qed.
+Print Assumptions C03_async_flushes_to_capacity_in_every_context.
+Theorem C03_bcast_flushes_to_capacity_in_every_context : forall c fuel m s s',
+  run fuel c (PBcast m) s = Ok s' -> (sbb s' <= c_cap c)%Z.
+Proof. exact bcast_unsent_le_cap_any_context. Qed.
+Print Assumptions C03_bcast_flushes_to_capacity_in_every_context.
+
 (* non-vacuity: a two-rank run with a capacity-exceeding async, a received message whose handler replies, and the
    destructor's barrier completing (status Ok) *)
 Local Open Scope Z_scope.
